@@ -162,8 +162,10 @@ class Input(ContextManager["Input"]):
             signal.set_wakeup_fd(getattr(self, "orig_wakeup_fd", -1))
             if self.wakeup_read_fd is not None:
                 os.close(self.wakeup_read_fd)
+                self.wakeup_read_fd = None
             if self.wakeup_write_fd is not None:
                 os.close(self.wakeup_write_fd)
+                self.wakeup_write_fd = None
         termios.tcsetattr(self.in_stream, termios.TCSANOW, self.original_stty)
 
     def sigint_handler(
